@@ -2,6 +2,7 @@ import Driver.SExp
 import UscxmlVerif.Spec.Legal
 import UscxmlVerif.Spec.Nesting
 import UscxmlVerif.Model.Tables
+import UscxmlVerif.Model.Validate
 namespace Driver
 open UscxmlVerif
 
@@ -9,7 +10,7 @@ open UscxmlVerif
 def legal (line : String) : String :=
   match line.splitOn "\t" with
   | sx :: cfgs :: _ =>
-    match parseSExp sx >>= parseDoc with
+    match parseSExp sx >>= parseDocNamed with
     | some (d, late) =>
       let c := flatten d late
       let idx (id : String) : Nat := (c.states.toList.findIdx? (fun s => s.id == id)).getD c.states.size
@@ -31,6 +32,17 @@ def tables (line : String) : String :=
   | _ :: sx :: _ =>
     match parseSExp sx >>= parseDoc with
     | some (d, late) => Model.Tables.dump (flatten d late)
+    | none => "bad-chart"
+  | _ => "bad-op"
+
+/-- request: `<x>\t<chart s-expression>…`; response: the sorted classes of the fatal issues -/
+def validate (line : String) : String :=
+  match line.splitOn "\t" with
+  | _ :: sx :: _ =>
+    match parseSExp sx >>= parseDoc with
+    | some (d, _) =>
+      let is := (Model.Validate.fatalIssues d).mergeSort (· ≤ ·)
+      if is.isEmpty then "-" else ",".intercalate is
     | none => "bad-chart"
   | _ => "bad-op"
 
